@@ -400,7 +400,7 @@ pub fn fk_create() -> ForeignKeyCreateStatement {
     let p = pool();
     let mut fk = ForeignKey::create();
     fk.name("fk_glyph_font")
-        .from((p.schema.clone(), G::Table), (G::Id, G::Aspect))
+        .from(p.t.clone(), (G::Id, p.b.clone()))
         .to(F::Table, (F::Id, F::Language))
         .on_delete(ForeignKeyAction::Cascade)
         .on_update(ForeignKeyAction::SetNull);
@@ -426,7 +426,7 @@ pub fn index_create() -> IndexCreateStatement {
     let p = pool();
     let mut ix = Index::create();
     ix.name("ix_t_a_b")
-        .table((p.schema.clone(), p.t.clone()))
+        .table(p.t.clone())
         .col((p.a.clone(), IndexOrder::Desc))
         .col((p.b.clone(), 8, IndexOrder::Asc))
         .col(p.c.clone())
@@ -504,7 +504,6 @@ pub fn table_create() -> TableCreateStatement {
         .col(ColumnDef::new(p.b.clone()).string_len(40).null().default("x'y"))
         .col(ColumnDef::new(p.c.clone()).decimal_len(10, 3).default(Expr::val(1.5)).check(Expr::col(p.c.clone()).gte(0)))
         .col(ColumnDef::new(G::Image).json_binary().generated(Expr::col(p.b.clone()), true))
-        .col(ColumnDef::new(G::Tags).array(ColumnType::Array(RcOrArc::new(ColumnType::Custom(p.alias.clone())))))
         .col(ColumnDef::new(F::Language).timestamp_with_time_zone().default(Expr::current_timestamp()))
         .col(ColumnDef::new(F::Name).custom(p.alias.clone()).default(Keyword::Null))
         .index(Index::create().name("ix_inline").col(p.b.clone()).col(p.c.clone()).unique())
@@ -513,5 +512,15 @@ pub fn table_create() -> TableCreateStatement {
         .engine("InnoDB")
         .collate("utf8mb4_general_ci")
         .character_set("utf8mb4");
+    t
+}
+
+pub fn table_create_pg() -> TableCreateStatement {
+    let p = pool();
+    let mut t = table_create();
+    t.col(ColumnDef::new(G::Tags).array(ColumnType::Array(RcOrArc::new(ColumnType::Custom(p.alias.clone())))))
+        .col(ColumnDef::new(Alias::new("iv")).interval(Some(PgInterval::YearToMonth), Some(2)))
+        .col(ColumnDef::new(Alias::new("vec")).vector(Some(3)))
+        .col(ColumnDef::new(Alias::new("path")).ltree());
     t
 }
